@@ -582,3 +582,39 @@ def _(u):
         else:
             u.prove("eval.no-loss", res["loss"] is None)
             u.prove("eval.best-of-k", seen["select_best"] is True)
+
+
+# ---------------------------------------------------------------------------------------------
+# C16 / C12: SymNCO.shared_step - which tensors reach the three loss functions and how the losses are combined
+# ---------------------------------------------------------------------------------------------
+SYM = "rl4co/models/zoo/symnco/model.py"
+
+
+@unit("symnco.shared_step.train", file=SYM, func="SymNCO.shared_step", props=("C16",))
+def _(u):
+    B = u.dim("B")
+    S, A = u.dim("S", 2), u.dim("A", 2)
+    R = S * (A * B)
+    rew, ll = u.tensor("policy_reward", (R,), "f"), u.tensor("policy_ll", (R,), "f")
+    ll.requires_grad = True
+    proj = u.tensor("proj_embeddings", (A * B, 3, 4), "f")
+    alpha, beta = u.scalar("alpha", "f"), u.scalar("beta", "f")
+    Lps, Lss, Linv = u.scalar("L_ps", "f"), u.scalar("L_ss", "f"), u.scalar("L_inv", "f")
+    got = {}
+    u.stub(problem_symmetricity_loss=lambda r, l, dim=1: (got.update(ps=(r, l, dim)), Lps)[1],
+           solution_symmetricity_loss=lambda r, l, dim=-1: (got.update(ss=(r, l, dim)), Lss)[1],
+           invariance_loss=lambda pe, n: (got.update(inv=(pe, n)), Linv)[1])
+    td0 = SymTD({"locs": u.tensor("locs", (B, 3, 2), "f")}, (B,))
+    obj = u.obj(SYM, "SymNCO", env=u.ns(reset=lambda batch: td0, name="tsp"), num_augment=A, num_starts=S, augment=lambda td: td, alpha=alpha, beta=beta,
+                policy=lambda td, env, phase=None, num_starts=None: {"reward": rew, "log_likelihood": ll, "proj_embeddings": proj},
+                log_metrics=lambda out, phase, dataloader_idx=None: {"_out": out})
+    res = u.run(SYM, "SymNCO.shared_step", {}, 0, "train", selfobj=obj, record=False)
+    b, i, j = u.idx((B,), "b"), u.idx((S,), "i"), u.idx((A,), "j")
+    u.prove("symnco.loss.combination", _scalar(res["loss"]) == Lps + beta * Lss + alpha * Linv)
+    u.prove("symnco.losses.receive-the-same-regrouped-tensors", AND(got["ps"][0] is got["ss"][0], got["ps"][1] is got["ss"][1], got["inv"][0] is proj, got["inv"][1] is A))
+    r3, l3 = got["ps"][0], got["ps"][1]
+    u.prove("symnco.regrouped.shape", AND(*[zint(x) == zint(y) for x, y in zip(r3.shape, (B, S, A))], r3.rank == 3, l3.rank == 3))
+    # every entry of the regrouped tensors is a roll-out of the SAME instance b, and reward / log-likelihood stay paired
+    row = (j * S + i) * B + b
+    u.prove("symnco.regrouped.same-instance-and-paired", AND(r3.at(b, i, j) == rew.at(row), l3.at(b, i, j) == ll.at(row), row % B == b))
+    u.canary("symnco.loss.without-invariance-term", _scalar(res["loss"]) == Lps + beta * Lss)
